@@ -90,6 +90,10 @@ def _build_frame(case, B):
     data = {}
     arrays = {g['name']: lib(B + ['construct', g['kind']], model.reback, g['kind'], g['elements'], g['subtype'], g['reback'])
               for g in case['geoms']}
+    for g in case['geoms']:
+        # decoder sanity (constructors and re-backing are C16's subject): the array holds exactly the case's elements
+        if model.to_canonical(arrays[g['name']]) != model.canon_elements(g['elements']):
+            raise RuntimeError(f'harness: built {g["kind"]}[{g["subtype"]}] array ({g["reback"]}) does not hold the elements of the case')
     for name in case['order']:
         if name in arrays:
             data[name] = arrays[name]
@@ -175,7 +179,8 @@ def _compare(got, exp, rows, columns, B, ctx):
     if len(g_index) != len(e_index):
         return [(B + ['row-count-differs'], f'expected {len(e_index)} rows got {len(g_index)}; {ctx}')]
     gk, ek = _row_keys(g_index, g_cols, want_cols), _row_keys(e_index, e_cols, want_cols)
-    if gk != ek and sorted(gk) == sorted(ek):
+    data_differs = [g_cols[c] for c in want_cols] != [e_cols[c] for c in want_cols]
+    if gk != ek and sorted(gk) == sorted(ek) and data_differs:
         pos = {}
         for i, k in enumerate(ek):
             pos.setdefault(k, []).append(i)
